@@ -8,7 +8,7 @@ PBT = "property-based testing (proptest via vcore): "
 META = {
  "C01": dict(engine="vcore+drvlab", technique=PBT + "generated submit/feed/poll/cancel/drop programs on the raw Proactor of both drivers; history invariant over the compio_verif hook trace (op alloc/submit/raw CQE/pool done/ring closed/free), tracked buffers with quarantine canaries, tracked descriptors",
   text="Seeded random exploration of API-step interleavings of submit / OS completion / key drop / token cancel / handle drop / driver drop for recv, pipe read, accept, multishot accept, poll-once, gated thread-pool jobs, read-at and zero-copy send, on io_uring and polling, SQ capacities 1..1024. The oracle is an invariant over the complete event history of each case; no exhaustiveness.",
-  note="Drop points are API-step boundaries, not arbitrary instructions; kernel trusted; runtime-level futures (Submit/SubmitMulti/Zerocopy wrappers) are exercised by C06a/C07/C14, not here; user-space memory errors that do not reach the hook trace need the ASan build (thorough)."),
+  note="Drop points are API-step boundaries (driver lab) resp. harness steps between runtime ticks (runtime lab: future, task, token and runtime drops, zero-copy notification order), not arbitrary instructions; kernel trusted; user-space memory errors that do not reach the hook trace need the ASan step (thorough); a pool job outliving its driver leaks by design (listed known finding, shape drained before a drop)."),
  "C02": dict(engine="vcore+drvlab", technique=PBT + "generated mixes of concurrently pending operations with harness-chosen readiness order; validity-predicate oracle over position-coded streams (partition of a prefix), own-buffer round trip, accept-exactly-once, bounded-progress liveness, counting wakers",
   text="Seeded random programs with up to 14 concurrently pending operations over shared and distinct descriptors, capacities down to 1, both drivers; every final outcome is compared with what the harness fed (data, count, EOF, error) and every operation whose awaited event was supplied must complete within a poll bound.",
   note="Kernel-internal completion order between reads pending on one descriptor is not controlled (hence the partition predicate); liveness = 60 polls of <=100 ms (300 for pool jobs); managed-buffer and multishot-read kinds are covered by C07."),
@@ -18,14 +18,15 @@ META = {
  "C04": dict(engine="vcore+shuttle", technique="model-based property testing: generated single-thread executor programs in lock-step with a reference model (c04a); generated cross-thread handle/waker/teardown programs x shuttle schedules (c04b); ASan build of c04a in the thorough tier",
   text="4x10^5 generated spawn/tick/wake/cancel/detach/drop/panic programs per quick run against a reference model with instrumented futures, and sampled SC interleavings of cross-thread JoinHandle and waker use against exactly-once counters.",
   note="Three cross-thread defects remain listed as known findings (teardown use-after-free x2, remote handle drop never taking effect) and their shapes are excluded from the generator by construction; weak-memory reorderings and UnsafeCell races are out of reach of shuttle."),
- "C05": dict(engine="vcore+drvlab", technique=PBT + "generated cancel-vs-readiness-vs-completion programs (key drop, cancel token, double cancel, cancel after completion) with neighbours on the same descriptor; promptness judged by a poll bound without supplying the event, honesty by the C02 data oracle",
+ "C05": dict(engine="vcore+drvlab", technique=PBT + "generated cancel-vs-readiness-vs-completion programs at the raw Proactor (key drop, cancel token, double cancel, cancel after completion) and at the runtime level (with_cancel incl. personality nesting and pre-fired tokens, timeout, dropped future) with neighbours on the same descriptor; promptness judged by a poll/step bound without supplying the event, honesty by the data oracle, the hook count of operations still alive in the driver",
   text="Seeded random exploration of subsets of pending interruptible operations cancelled by key drop or token at generated moments on both drivers and all capacities; cancelled operations must finish within 12 polls although their event never happens, with a cancellation error or genuine data, neighbours must complete with exactly their data.",
-  note="Raw Proactor level: the timeout route and the runtime's CancelToken/with_cancel combinators are not driven here; thread-pool operations are excluded as documented."),
+  note="Thread-pool operations are excluded as documented; timeouts are judged only after their deadline has clearly passed."),
  "C06": dict(engine="vcore+shuttle", technique="property-based testing: generated clone/drop/op/close programs with a /proc/self/fd oracle on both drivers (c06a) and proptest cases x shuttle schedules of the unmodified fd.rs release protocol (c06b)",
   text="Same-thread descriptor lifecycle programs judged by descriptor-table snapshots (nothing leaked, nothing closed twice or in use, close resolves exactly when the last holder lets go) and sampled SC interleavings of take() against concurrent drops.",
   note="c06b runs fd.rs over shuttle stand-ins for Arc / waker slot (shim crate synchrony); SC only."),
- "C07": dict(engine="vcore", technique=PBT + "generated managed / multishot read programs with hold times, cancellations and early stream drops on the io_uring buffer ring and the fallback pool; exclusivity (disjoint address ranges, stable snapshots), data and conservation oracles",
-  text="Seeded random exploration; see notes/C07.md.", note="see notes/C07.md"),
+ "C07": dict(engine="vcore", technique=PBT + "generated managed / multishot read programs with hold times, cancellations and early stream drops on the io_uring buffer ring and the fallback pool; exclusivity (disjoint address ranges via a tracking allocator, stable content snapshots), position-coded data and conservation oracles",
+  text="3 000 generated programs per quick run on pipes, TCP, Unix, UDP and files with harness-controlled feeding, held buffers, cancellations, early stream drops and driver-only poll steps, pool sizes 1-16 x buffer lengths 16-256, both pools; at the end exactly N buffers are obtainable and the (N+1)-th request fails with an error.",
+  note="One pending operation per resource; data lost with a cancelled operation is tolerated; buffers outliving the runtime are accounted through the tracking allocator."),
  "C08": dict(engine="vcore", technique=PBT + "three-way differential testing: the same generated file/pipe/directory program on the io_uring runtime, the polling runtime (thread-pool fallback) and a synchronous std::fs/libc reference",
   text="2 000 generated programs per quick run (<= 25 steps: open options, positional/sequential single/vectored I/O with generated buffer shapes, offsets beyond EOF, truncate, sync, metadata, permissions, pipes, directory utilities) compared step by step and by final directory state.",
   note="Timestamps, inode numbers and error text are excluded; two kernel check-order differences (errno of a doubly invalid call, zero-length read of a directory) are not judged; offset u64::MAX on io_uring is a listed known finding."),
@@ -45,11 +46,14 @@ META = {
   text="4x10^5 generated cases per quick run over every framer/codec and control-message lists; 8x10^6 + 4x10^5 libFuzzer executions thorough.",
   note="Hostile bytes are not fed to the unsafe AncillaryIter::new / RecvMsgMultiResult::new, whose contract requires kernel-valid input."),
  "C14": dict(engine="vcore", technique=PBT + "generated sender/receiver scripts over TCP, Unix stream, UDP and Unix datagram sockets and accept programs on both drivers; position-coded payload equality, datagram truncation and source-address oracles, accept-exactly-once",
-  text="Seeded random exploration; see notes/C14.md.", note="see notes/C14.md"),
- "C15": dict(engine="vcore", technique=PBT + "generated transport schedules (per-call byte limits, pending-then-wake, flush-gated visibility) of an in-memory duplex under both TLS back-ends, and a throttling proxy under WebSocket; stream equality, exact deadlock detection and step bound",
-  text="Seeded random exploration; see notes/C15.md.", note="see notes/C15.md"),
- "C16": dict(engine="vcore", technique=PBT + "generated QUIC transport configurations, stream/datagram programs, reader pacing and close points over loopback endpoints; per-stream byte equality, datagram subset/integrity, every pending future resolved after close",
-  text="Seeded random exploration; see notes/C16.md.", note="see notes/C16.md"),
+  text="~10 600 generated cases per quick run: sender/receiver scripts on one connection (every send/recv flavour incl. vectored, zero-copy, managed, multishot, split halves, 0-300 KiB), datagram lists with per-datagram flavours and capacities incl. ancillary data, accept programs mixing accept() and incoming().",
+  note="Kernel loopback trusted (<= 16 outstanding datagrams); multishot streams are only dropped when nothing is outstanding; MSG_CTRUNC is a label, not a verdict."),
+ "C15": dict(engine="vcore", technique=PBT + "generated transport schedules (per-call byte limits, pending-then-wake, flush-gated visibility) of an in-memory duplex under both TLS back-ends, and a throttling proxy under WebSocket; stream equality, exact dead-lock detection and step bound",
+  text="1 200 generated in-memory TLS conversations (native-tls and rustls x client/server roles) and 400 WebSocket conversations over throttled socketpairs (plain and TLS, both drivers) per quick run; handshake, byte/message equality, clean close, no dead-lock (exact: both sides pending, no waker fired, nothing scheduled) and no spin.",
+  note="Fixed test certificates under fixtures/tls; the rustls handshake-flush defect of futures-rustls is a listed known finding and its shape is avoided by construction; OS-owned interleavings of the WS half and third-party protocol internals are not enumerated."),
+ "C16": dict(engine="vcore", technique=PBT + "generated QUIC transport configurations, stream/datagram programs, reader pacing and close points over loopback endpoints; per-stream byte equality, datagram subset/integrity, every pending future resolved after close (rescue rule)",
+  text="~100 generated loopback scenarios per quick run (window and stream-limit configurations, concurrent uni/bidi streams with generated write/read chunkings and pacing, datagrams, close before/during/after by either side via connection or endpoint) with every future polled by the harness; after close every pending future of nine kinds must have been woken.",
+  note="Schedules belong to the OS; most protocol logic is quinn-proto (trusted), the check targets compio-quic's waker bookkeeping."),
  "C17": dict(engine="vcore", technique=PBT + "generated dispatch programs on real threads (direct dispatch from 1-6 threads and 1-3 runtimes sharing a pool); exact per-job execution counters, running-jobs gauge, hand-back identity, panic delivery",
   text="~650 generated programs per quick run with limits 1-8, idle timeouts 1-50 ms, bursts above the limit and idle gaps.",
   note="Real OS threads: cases are seeded, schedules belong to the OS, replay repeats the saved case 30x; hangs are exact only where /proc shows no worker alive, otherwise inconclusive."),
